@@ -392,6 +392,85 @@ fn given_up_then_refused(seed: u64, verbose: bool) -> CaseOut {
     out
 }
 
+
+/// C13, a keep-alive probe is due and the send buffer is full: the `poll()` / `recv()` / `drive()`
+/// that should write the PINGREQ is given up, again and again, while time goes on - past the
+/// next keep-alive deadline, and the one after it.  No byte of the probe (or only its first) is
+/// on the wire, so nothing is unanswered and the peer does not look dead.  When the transport
+/// takes bytes again the wire must carry what the run without the stall carries: one PINGREQ.
+fn probe_given_up_repeatedly(seed: u64, verbose: bool) -> CaseOut {
+    let mut out = CaseOut::default();
+    let mut rng = Rng::new(seed);
+    let ka = *rng.pick(&[1u16, 2, 4, 30, 600]);
+    let cfg = CaseCfg { rx: 128, tx: 512, keepalive: ka, ..CaseCfg::default() };
+    let eff = ka as u64 * 1_000_000;
+    let lead = 5_000_000u64.min(eff / 2);
+    let nctx = rng.below(3);
+    let ctx: Vec<Step> = (0..nctx)
+        .map(|k| match rng.below(3) {
+            0 => pub1("probe/a", 70 + k as u32, rng.range(1, 20)),
+            1 => pubq(2, "probe/b", 80 + k as u32, rng.range(1, 20)),
+            _ => Step::Subscribe(SubSpec { filters: vec![FilterSpec { filter: "probe/#".into(), max_qos: 1, no_local: false, rap: false, rh: 0 }], props: vec![], cancel_at: None }),
+        })
+        .collect();
+    let n = *rng.pick(&[1usize, 2, 3, 4, 7]);
+    let after = rng.below(2);
+    // time that passes after each wait that was given up: fractions and multiples of the interval
+    let gaps: Vec<u64> = (0..n).map(|_| *rng.pick(&[0u64, 1, eff / 2, eff - lead, eff, eff + 1, 2 * eff, 3 * eff + 7])).collect();
+    let waits: Vec<Step> = (0..n)
+        .map(|_| match rng.below(4) {
+            0 => Step::Recv { max_wait: 0, cancel_at: None },
+            1 => Step::Drive { cancel_at: Some(1) },
+            _ => poll0(),
+        })
+        .collect();
+    let due = eff - lead + *rng.pick(&[0u64, 1, 1000]);
+    let program = |stalled: bool| -> Vec<Step> {
+        let mut st = vec![Step::Connect(ConnectSpec { policy: IoPolicy::default(), faults: vec![], connack: ConnackSpec::ok(SpMode::Force(false)), broker: BrokerPolicy { acks: AckMode::Hold, ping: AckMode::Immediate, fail_pct: 0, longform_pct: 0 }, cancel_at: None })];
+        st.extend(ctx.iter().cloned());
+        st.push(Step::Advance(due));
+        if stalled {
+            st.push(Step::Broker(BrokerAct::WriteGate { after, blocks: n as u8 }));
+            for (w, g) in waits.iter().zip(&gaps) {
+                st.push(w.clone());
+                st.push(Step::Advance(*g));
+            }
+        }
+        for _ in 0..4 {
+            st.push(poll0());
+        }
+        st
+    };
+    let (alog, aworld) = run_script(&cfg, program(false), seed);
+    let a_obs = observe(&alog, &aworld.borrow());
+    let (blog, bworld) = run_script(&cfg, program(true), seed);
+    let bw = bworld.borrow();
+    out.evaluations += 1;
+    let given_up = blog.ops.iter().filter(|o| matches!(o.outcome, Outcome::Cancelled | Outcome::CallerTimeout)).count();
+    let pings_a = aworld.borrow().conns[0].out.packets.iter().filter(|p| p.b0 == 0xC0).count();
+    if given_up == 0 || pings_a == 0 {
+        out.count("probe_stall_cases_without_a_given_up_wait", 1);
+        return out;
+    }
+    out.count("twins_compared", 1);
+    out.count("probe_waits_given_up_with_the_send_buffer_full", given_up as u64);
+    if gaps.iter().sum::<u64>() >= eff {
+        out.count("probe_stalls_outlasting_a_further_keepalive_interval", 1);
+    }
+    out.key(format!("probe-stall/ka={}/n={}/after={}", ka, n, after));
+    out.nontrivial.push(hash_of(&(abstract_trace(&blog, &bw), ka, n)));
+    let b_obs = observe(&blog, &bw);
+    if let Some((what, msg)) = diff(&a_obs, &b_obs) {
+        out.violations.push(viol("C13", format!("C13/probe-given-up/{}", what), format!("keep-alive {} s, probe due, {} wait(s) given up on a full send buffer ({} byte(s) of the PINGREQ taken) with gaps {:?} us in between: {}", ka, n, after, gaps, msg)));
+        if verbose {
+            for l in render(&blog, &bw, 400) {
+                println!("{}", l);
+            }
+        }
+    }
+    out
+}
+
 impl Check for C13 {
     fn id(&self) -> &'static str {
         "C13"
@@ -400,7 +479,7 @@ impl Check for C13 {
         "fault_enumeration"
     }
     fn rule(&self) -> String {
-        "differential twin runs: a generated prefix (no cancellation, deterministic transport that pends once before every read/write/flush and accepts 1 byte / all / all-but-one / 3 bytes per write) ends with one final request R in {publish QoS 1, publish QoS 2, subscribe, unsubscribe, poll, recv, drive, disconnect}; the reference executes R uncancelled and drains the connection; each variant drops R's future at await index j (every j the reference saw, optionally after 1 or 3 earlier cancelled attempts), keeps polling until idle, re-issues R if the snapshot says it was not enqueued, and drains. Decoded outbound packets (bytes included) of all connections and the delivered messages must equal the reference. Variants: the prefix may itself contain cancelled operations; with keep-alive on, the PINGREQ deadline falls right before the request or right after it (then the position of the PINGREQ is not compared); a queue-based request is followed by a QoS 0 publish; after a cancelled disconnect() the application polls first (weaker relation: nothing of the reference missing or reordered, same final DISCONNECT), or drops the handle and connects again (the next connection must lie between the run with the completed disconnect and the run without any), optionally after one more request on the closing handle (a refused request is on no connection's wire); one disconnect request in three is made again with another reason and other properties, and the run must then equal the reference that asked for the first DISCONNECT or a second reference that asked for the other one from the start. Workload given-up-request-then-refused-request: eight retained slots in use, the eighth request given up at each of its awaits, then a request that must be refused, then the end of the connection. Where wire and deliveries agree and both runs ended idle, the send-state tables (retained, release, control: identifier and state) of both sessions agree as well. Non-trivial iff the cancellation happened (the future was really dropped while pending); distinct keys = (request kind, await kind, bytes-of-the-packet-already-written bucket).".into()
+        "differential twin runs: a generated prefix (no cancellation, deterministic transport that pends once before every read/write/flush and accepts 1 byte / all / all-but-one / 3 bytes per write) ends with one final request R in {publish QoS 1, publish QoS 2, subscribe, unsubscribe, poll, recv, drive, disconnect}; the reference executes R uncancelled and drains the connection; each variant drops R's future at await index j (every j the reference saw, optionally after 1 or 3 earlier cancelled attempts), keeps polling until idle, re-issues R if the snapshot says it was not enqueued, and drains. Decoded outbound packets (bytes included) of all connections and the delivered messages must equal the reference. Variants: the prefix may itself contain cancelled operations; with keep-alive on, the PINGREQ deadline falls right before the request or right after it (then the position of the PINGREQ is not compared); a queue-based request is followed by a QoS 0 publish; after a cancelled disconnect() the application polls first (weaker relation: nothing of the reference missing or reordered, same final DISCONNECT), or drops the handle and connects again (the next connection must lie between the run with the completed disconnect and the run without any), optionally after one more request on the closing handle (a refused request is on no connection's wire); one disconnect request in three is made again with another reason and other properties, and the run must then equal the reference that asked for the first DISCONNECT or a second reference that asked for the other one from the start. Workload given-up-request-then-refused-request: eight retained slots in use, the eighth request given up at each of its awaits, then a request that must be refused, then the end of the connection. Workload keepalive-probe-given-up-repeatedly: a PINGREQ is due while the send buffer is full, the wait that should write it is given up 1..7 times with up to several keep-alive intervals passing in between; afterwards the wire carries what the run without the stall carries. Where wire and deliveries agree and both runs ended idle, the send-state tables (retained, release, control: identifier and state) of both sessions agree as well. Non-trivial iff the cancellation happened (the future was really dropped while pending); distinct keys = (request kind, await kind, bytes-of-the-packet-already-written bucket).".into()
     }
     fn assumptions(&self) -> Vec<String> {
         let mut v: Vec<String> = COMMON_ASSUME.iter().map(|s| s.to_string()).collect();
@@ -409,17 +488,20 @@ impl Check for C13 {
         v
     }
     fn workloads(&self) -> Vec<Workload> {
-        vec![Workload { name: "cancel-twin", quick: 20_000, thorough: 3_000_000 }, Workload { name: "given-up-request-then-refused-request", quick: 300, thorough: 30_000 }]
+        vec![Workload { name: "cancel-twin", quick: 20_000, thorough: 3_000_000 }, Workload { name: "given-up-request-then-refused-request", quick: 300, thorough: 30_000 }, Workload { name: "keepalive-probe-given-up-repeatedly", quick: 600, thorough: 60_000 }]
     }
     fn min_nontrivial(&self, tier: Tier) -> usize {
         if tier == Tier::Quick { 300 } else { 3000 }
     }
     fn required_counters(&self) -> Vec<&'static str> {
-        vec!["twins_compared", "cancelled_and_survived", "cancelled_and_reissued", "requests_issued_with_pingreq_due", "requests_followed_by_a_qos0_publish", "pingreq_due_right_after_the_request"]
+        vec!["twins_compared", "cancelled_and_survived", "cancelled_and_reissued", "requests_issued_with_pingreq_due", "requests_followed_by_a_qos0_publish", "pingreq_due_right_after_the_request", "probe_stalls_outlasting_a_further_keepalive_interval"]
     }
     fn run(&self, workload: usize, seed: u64, _index: u64, tier: Tier, verbose: bool) -> CaseOut {
         if workload == 1 {
             return given_up_then_refused(seed, verbose);
+        }
+        if workload == 2 {
+            return probe_given_up_repeatedly(seed, verbose);
         }
         let mut out = CaseOut::default();
         let mut rng = Rng::new(seed);
